@@ -378,7 +378,6 @@ impl Segment {
         &&& (self.fragment_blocks.bit(0) ==> self.header is Some)
         &&& (self.header matches Some(h) ==> h.ihl == 5 && h.fragment_offset == 0)
         &&& forall|i: int| 0 <= i < heap_seq(self.fragments).len() ==> (#[trigger] heap_seq(self.fragments)[i]).message.wf() && heap_seq(self.fragments)[i].message@.len() <= 65535
-        &&& heap_seq(self.fragments).len() <= self.epoch
         &&& self.total_data_length as int + 20 <= 65535
     }
     /// payload-level invariant relative to the datagram d being reassembled
@@ -407,7 +406,6 @@ impl Segment {
 //@ contract
     requires
         old(self).wf(), body.wf(), frag_hdr_ok(header, body@),
-        old(self).epoch < 65535,
         // payload level: the buffer holds block-disjoint slices of one datagram d, and the arriving fragment is a slice
         // of d that is either new (none of its blocks received yet) or an exact repetition of a recorded piece
         old(self).pay_inv(d),
@@ -435,7 +433,7 @@ impl Segment {
             && hm.0.destination == h0.destination && hm.0.protocol == h0.protocol && hm.0.time_to_live == h0.time_to_live
             && hm.0.type_of_service == h0.type_of_service && hm.1.wf()),   //# returns_first_header_restored [C11]
         // (17) an incomplete arrival advances the epoch, which guards the expiry callback
-        r is None ==> final(self).epoch == old(self).epoch + 1 && final(self).timeout_seconds >= old(self).timeout_seconds
+        r is None ==> final(self).epoch == (if old(self).epoch == 65535 { 0u16 } else { (old(self).epoch + 1) as u16 }) && final(self).timeout_seconds >= old(self).timeout_seconds
             && final(self).timeout_seconds >= header.time_to_live,   //# incomplete_arrival_bumps_epoch [C11]
         r is Some ==> final(self).epoch == old(self).epoch,
 //@ after 1 `.push(Fragment::new(body, header.fragment_offset));`
@@ -511,8 +509,7 @@ impl Segment {
                     self.header == pre.header, self.epoch == pre.epoch, self.timeout_seconds == pre.timeout_seconds,
                     message.wf(),
                     forall|i: int| 0 <= i < heap_seq(self.fragments).len() ==> (#[trigger] heap_seq(self.fragments)[i]).message.wf() && heap_seq(self.fragments)[i].message@.len() <= 65535,
-                    heap_seq(self.fragments).len() <= 65536,
-                    message@.len() + 65535 * heap_seq(self.fragments).len() <= 65535 * 65537,
+                    d.len() <= 65535,
                 ensures
                     message@ == d,
                     self.fragment_blocks == pre.fragment_blocks, self.total_data_length == pre.total_data_length,
